@@ -491,27 +491,18 @@ func rulePairLoopCallsBack(r *Report) {
 	if len(callsToDeep(fn, false, "(*column.Txn).rangeRead")) > 0 {
 		return // delegates the iteration: nothing of its own to skip
 	}
-	ok, n := true, 0
-	for _, f := range deepFuncs(fn) {
-		for _, cb := range userCallIn(f) {
-			n++
-			b := cb.Block()
-			if !reachAvoiding(b, b, nil, nil) {
-				continue // not inside a loop of this function (a per-block closure of a shared helper)
-			}
-			// some block of the cycle that can reach the callback can also get back to itself
-			// without passing the callback: an iteration that skips it
-			for _, hd := range f.Blocks {
-				if hd == b || !reachAvoiding(hd, b, nil, nil) || !reachAvoiding(b, hd, nil, nil) {
-					continue
-				}
-				if reachAvoiding(hd, hd, func(x *ssa.BasicBlock) bool { return x == b }, nil) {
-					ok = false
-				}
-			}
+	loops := pairLoops(r)
+	pl := loops["(*column.Txn).rangeReadPair"]
+	h.Check(pl != nil && pl.Calls > 0 && !pl.Skips, "(*column.Txn).rangeReadPair/every-block", r.P.Pos(fn.Pos()), "the callback is invoked in every iteration of the block loop", "an iteration of rangeReadPair's block loop can complete without invoking the callback (a `continue` for blocks whose selection is empty, say): Union, which adds rows through this loop, loses the rows of those blocks")
+	// siblings found by shape: one that skips blocks does so on a test of the selection's block only
+	// (that it is used for narrowing steps only is C04.ops)
+	for _, n := range pairLoopNames(r) {
+		if n == "(*column.Txn).rangeReadPair" {
+			continue
 		}
+		sib := loops[n]
+		h.Check(!sib.Skips || sib.SkipSel, n+"/every-block", r.P.Pos(sib.Fn.Pos()), "the callback is invoked in every iteration, or skipped on a test of the selection's block alone", "the block loop skips iterations on a condition that is not a test of the selection's block: blocks are left unfiltered")
 	}
-	h.Check(ok && n > 0, "(*column.Txn).rangeReadPair/every-block", r.P.Pos(fn.Pos()), "the callback is invoked in every iteration of the block loop", "an iteration of rangeReadPair's block loop can complete without invoking the callback (a `continue` for blocks whose selection is empty, say): Union, which adds rows through this loop, loses the rows of those blocks")
 }
 
 // ruleSerialisersReadOnly (C05.readonly): WriteTo does not write what it serialises. Neither
@@ -702,6 +693,179 @@ func ruleSnapshotComplete(r *Report) {
 				}
 				h.Check(ok, fnName(fn)+"/rows", pos, "one operation written for every present row", "the per-row callback of this Snapshot can return without writing the row to the destination buffer (a value-dependent skip): on restore — and when an index is back-filled — such rows come back without their presence bit and without their value")
 			}
+		}
+	}
+}
+
+// ruleExtremeFold (C04.fold): Min and Max fold the per-block extremes of the blocks that *have* one.
+// bitmap.Min/Max return (value, hit); whatever the aggregate remembers from that call — the value,
+// the hit flag — is stored only on the path where hit is true: a block in which no selected row
+// holds a value yields (0, false), and 0 is not a candidate.
+func ruleExtremeFold(r *Report) {
+	h := r.Rule("C04.fold", "P", "Min and Max take a block's result into account only when the block had one: every store of a value that comes from bitmap.Min/Max's results is on the path where its hit flag is true", 2)
+	for _, agg := range []string{"Min", "Max"} {
+		name := "(column.rdNumber[T])." + agg
+		fn := r.Anchor(name)
+		if fn == nil {
+			continue
+		}
+		n, ok := 0, true
+		var bad ssa.Instruction
+		deepVisitC(fn, func(c ssa.Instruction, env *venv) {
+			cc, _, _ := callCommon(c)
+			if cc == nil {
+				return
+			}
+			if nm := calleeNameE(cc, env); nm != "bitmap.Min" && nm != "bitmap.Max" {
+				return
+			}
+			call, isCall := c.(*ssa.Call)
+			if !isCall {
+				return
+			}
+			n++
+			var hit ssa.Value
+			fromCall := func(v ssa.Value) bool {
+				ex, isEx := v.(*ssa.Extract)
+				return isEx && ex.Tuple == ssa.Value(call)
+			}
+			for _, ref := range *call.Referrers() {
+				if ex, isEx := ref.(*ssa.Extract); isEx && ex.Index == 1 {
+					hit = ex
+				}
+			}
+			allInstrs(c.Parent(), func(ins ssa.Instruction) {
+				st, isSt := ins.(*ssa.Store)
+				if !isSt || !(fromCall(st.Val) || dependsOn(st.Val, fromCall, 4)) {
+					return
+				}
+				// a spill of the tuple components into locals of the same block is not the fold
+				if al, isAl := st.Addr.(*ssa.Alloc); isAl && !al.Heap && st.Block() == call.Block() {
+					return
+				}
+				guarded := hit != nil && edgeGuarded(st.Block(), func(cond ssa.Value) (bool, bool) {
+					return norm(cond) == hit || cond == hit, true
+				})
+				if !guarded {
+					ok, bad = false, ins
+				}
+			})
+		})
+		pos := r.P.Pos(fn.Pos())
+		if bad != nil {
+			pos = r.P.InstrPos(bad)
+		}
+		h.Check(ok && n > 0, name, pos, "results of bitmap."+agg+" used only where hit", "the aggregate stores a result of bitmap."+agg+" on a path where its hit flag may be false: a block without a selected value contributes (0, false), which replaces the extreme found so far whenever 0 compares better")
+	}
+}
+
+// ruleCommitWritesOwnChunk (C06.own-chunk): a commit is the changes of one block. The Updates of a
+// Commit are the buffers of the whole transaction (the same slice is handed to the logger once per
+// block), so Commit.WriteTo has to select the sections of its own block: it reaches a buffer's
+// sections and bytes only through Reader.Range(buffer, c.Chunk, …), or, where it reads
+// Buffer.chunks / Buffer.buffer itself, under a branch that compares with c.Chunk.
+func ruleCommitWritesOwnChunk(r *Report) {
+	h := r.Rule("C06.own-chunk", "def-use", "Commit.WriteTo serialises the sections of its own block only: a buffer's sections and bytes are reached through Reader.Range(buffer, c.Chunk, …) or under a comparison with c.Chunk", 1)
+	fn := r.Anchor("(*commit.Commit).WriteTo")
+	if fn == nil || len(fn.Params) == 0 {
+		return
+	}
+	isOwnChunk := func(v ssa.Value) bool {
+		return dependsOn(v, func(x ssa.Value) bool {
+			fr, ok := loadedField(x)
+			return ok && fr.Struct == "commit.Commit" && fr.Field == "Chunk"
+		}, 8)
+	}
+	guarded := func(b *ssa.BasicBlock) bool {
+		for d := b.Idom(); d != nil; d = d.Idom() {
+			if iff, ok := d.Instrs[len(d.Instrs)-1].(*ssa.If); ok && isOwnChunk(iff.Cond) {
+				return true
+			}
+		}
+		return false
+	}
+	bad := ""
+	ranges, own := 0, 0
+	for _, f := range deepFuncs(fn) {
+		if f.Signature.Recv() != nil {
+			if n := structName(f.Signature.Recv().Type()); n == "commit.Reader" || n == "commit.Buffer" {
+				continue // the selecting reader itself
+			}
+		}
+		if f.Pkg == nil || !strings.HasSuffix(f.Pkg.Pkg.Path(), "/commit") {
+			continue
+		}
+		allInstrs(f, func(ins ssa.Instruction) {
+			if cc, _, _ := callCommon(ins); cc != nil && calleeIs(cc, "(*commit.Reader).Range") && len(cc.Args) > 2 {
+				ranges++
+				if isOwnChunk(cc.Args[2]) {
+					own++
+				} else {
+					bad = fmt.Sprintf("%s ranges over a block other than c.Chunk", r.P.InstrPos(ins))
+				}
+			}
+			fa, ok := ins.(*ssa.FieldAddr)
+			if !ok {
+				return
+			}
+			if fr, ok := fieldOf(fa); ok && fr.Struct == "commit.Buffer" && (fr.Field == "buffer" || fr.Field == "chunks") && !guarded(fa.Block()) {
+				bad = fmt.Sprintf("%s reads Buffer.%s of a transaction-wide buffer without selecting by c.Chunk", r.P.InstrPos(ins), fr.Field)
+			}
+		})
+	}
+	h.Check(bad == "" && ranges > 0 && own == ranges, "(*commit.Commit).WriteTo", r.P.Pos(fn.Pos()), fmt.Sprintf("%d Reader.Range(buffer, c.Chunk, …) selections, no unselected access to a buffer's sections", ranges), "Commit.WriteTo writes sections that do not belong to its block ("+bad+"): a buffer touched in another block of the same transaction is serialised into this commit and the replica applies it to the wrong block")
+}
+
+// ruleRangeCountAgrees (C05.count): WriteRange(n, func(i, w)) announces n entries and calls back for
+// i in [0, n). Where n is the length of a slice and the callback selects its entry by i, both have
+// to be the same slice: a count taken from a filtered copy with entries taken from the original
+// writes the wrong entries and drops the last ones without an error.
+func ruleRangeCountAgrees(r *Report) {
+	h := r.Rule("C05.count", "def-use", "a counted group announces the length of the slice its callback indexes: WriteRange(len(s), func(i, w)) selects s[i], not an element of another slice", 2)
+	var all []*ssa.Function
+	for fn := range r.P.modFunc {
+		all = append(all, fn)
+	}
+	sort.Slice(all, func(i, j int) bool { return fnName(all[i]) < fnName(all[j]) })
+	for _, f := range all {
+		fn := f
+		for fn.Parent() != nil {
+			fn = fn.Parent()
+		}
+		{
+			allInstrs(f, func(ins ssa.Instruction) {
+				cc, _, _ := callCommon(ins)
+				if cc == nil || !calleeIs(cc, "(*iostream.Writer).WriteRange") || len(cc.Args) < 3 {
+					return
+				}
+				key := fnName(fn)
+				ln, isCall := norm(cc.Args[1]).(*ssa.Call)
+				if !isCall {
+					h.OK(key, r.P.InstrPos(ins), "the count is not the length of a slice")
+					return
+				}
+				b, isB := ln.Call.Value.(*ssa.Builtin)
+				cb := asFunc(norm(cc.Args[2]))
+				if !isB || b.Name() != "len" || cb == nil {
+					h.OK(key, r.P.InstrPos(ins), "the count is not the length of a slice")
+					return
+				}
+				idx := cbParam(cb, 0)
+				n, bad := 0, ""
+				for _, g := range deepFuncs(cb) {
+					allInstrs(g, func(in2 ssa.Instruction) {
+						ia, ok := in2.(*ssa.IndexAddr)
+						if !ok || idx == nil || !sameExpr(ia.Index, idx) {
+							return
+						}
+						n++
+						if !sameExpr(ia.X, ln.Call.Args[0]) {
+							bad = r.P.InstrPos(in2)
+						}
+					})
+				}
+				h.Check(bad == "", key, r.P.InstrPos(ins), fmt.Sprintf("%d selections by the callback index, all from the counted slice", n), "the group announces the length of one slice and its callback indexes another ("+bad+"): entries are written for the wrong elements and the tail of the indexed slice is dropped without an error")
+			})
 		}
 	}
 }
